@@ -153,26 +153,31 @@ def declPath (d : Json) : E Json := do
 
 /-- follow the outer (typed) levels of a declaration chain; returns the data the last
 declaration acts on and that declaration's path -/
-def resolveChain (st : MState) (chain : Json) : E (Except ApiErr Val × Json) := do
+def resolveChain (st : MState) (chain : Json) : E (Except ApiErr (Src Val) × Json) := do
   let a ← getArr chain
   let ds := a.toList
   match ds.reverse with
   | [] => jErr "empty chain" chain
   | last :: outerRev =>
-    let mut data : Except ApiErr Val := .ok st.root
+    let mut data : Except ApiErr (Src Val) := .ok (.doc st.root)
     for d in outerRev.reverse do
       let da ← getArr d
       let p ← declPath (.arr #[da[0]!, da[1]!])
       let iterK : Option Nat := match da.toList with
         | [_, _, .str "iter", k] => (k.getNat?).toOption
         | _ => none
+      let viaMatch : Bool := match da.toList with
+        | [_, _, .str "gm"] => true
+        | _ => false
       data := match data, iterK with
-        | .ok v, none => typedData .get (stepsOfJson p) st.heap v
-        | .ok v, some k =>
+        | .ok src, none =>
+          if viaMatch then typedMatch (stepsOfJson p) st.heap src
+          else (typedDataS .get (stepsOfJson p) st.heap src).map Src.doc
+        | .ok src, some k =>
           -- element k of an iterator-typed attribute
-          match descrGet .find (stepsOfJson p) st.heap v with
+          match descrGetS .find (stepsOfJson p) st.heap src with
           | .ok (.values vs) => match vs[k]? with
-            | some x => .ok x
+            | some x => .ok (.doc x)
             | none => .error (.exc (.user "IndexError"))
           | .ok _ => .error (.bug "find")
           | .error e => .error e
@@ -376,7 +381,7 @@ def runOp (st : MState) (op : Json) : E (MState × Json) := do
     match data with
     | .error e => return finishErr st (errJ e)
     | .ok d =>
-      match descrGet g (stepsOfJson p) st.heap d with
+      match descrGetS g (stepsOfJson p) st.heap d with
       | .ok (.value v) => return finish st "ok" [] (some (c.wrap v))
       | .ok (.values vs) => return finishVals st "vals" [] vs   -- the converter sees the iterator, not its elements
       | .ok (.mtch (some m)) => return finish st "match" (matchPre m) (some m.data)
@@ -389,7 +394,7 @@ def runOp (st : MState) (op : Json) : E (MState × Json) := do
     match data with
     | .error e => return finishErr st (errJ e)
     | .ok d =>
-      let r := if kind.startsWith "iter" then descrSetIter st.heap else descrSet (convOf conv) (stepsOfJson p) st.heap d v
+      let r := if kind.startsWith "iter" then descrSetIter st.heap else descrSetS (convOf conv) (stepsOfJson p) st.heap d v
       let _ := setter
       match r with
       | (h', .ok _) => return finish { st with heap := h' } "ok" [] none
@@ -399,7 +404,7 @@ def runOp (st : MState) (op : Json) : E (MState × Json) := do
     match data with
     | .error e => return finishErr st (errJ e)
     | .ok d =>
-      match descrDel (stepsOfJson p) st.heap d with
+      match descrDelS (stepsOfJson p) st.heap d with
       | (h', .ok _) => return finish { st with heap := h' } "ok" [] none
       | (h', .error e) => return finishErr { st with heap := h' } (errJ e)
   | [.str "pp.get", p] =>
@@ -423,7 +428,7 @@ def runOp (st : MState) (op : Json) : E (MState × Json) := do
     match data with
     | .error e => return finishErr st (errJ e)
     | .ok d =>
-      match descrGet .get (stepsOfJson p) st.heap d with
+      match descrGetS .get (stepsOfJson p) st.heap d with
       | .ok (.value (.ref id)) =>
         match listOf st.heap id with
         | some _ => return finish { st with views := (lid, id, conv) :: st.views.filter (·.1 != lid) } "view" [] none
